@@ -276,7 +276,7 @@ def run(ctx):
     # ---------------- R4 #name == inputs.name
     ctx.rule("C19.R4", "#name and inputs.name resolve through the same lookup: Environment::get(\"inputs\") then IndexMap::get(field).copied().unwrap_or(Null)", floor=3)
     hev = core.hir_fn("blots_core::expressions::evaluate_ast")
-    m = sorted(H.matches_on(hev["body"], "ast::Expr"), key=lambda m_: -len(m_["arms"]))
+    m = [x_ for x_ in [H.main_match(hev["body"], "ast::Expr")] if x_ is not None]
     arms = {}
     for a in m[0]["arms"]:
         for v in H.pat_variants(a["pat"]):
